@@ -11,6 +11,10 @@ mod c20;
 mod c07;
 mod c15;
 mod c10;
+mod c13;
+mod c14;
+mod fi_fields;
+mod legacy_fields;
 
 use std::io::{BufWriter, Write};
 
@@ -37,6 +41,8 @@ fn main() {
                 "C07" => c07::gen(tier, seed, &mut out),
                 "C15" => c15::gen(tier, seed, &mut out),
                 "C10" => c10::gen(tier, seed, &mut out),
+                "C13" => c13::gen(tier, seed, &mut out),
+                "C14" => c14::gen(tier, seed, &mut out),
                 _ => {
                     eprintln!("unknown property {}", prop);
                     std::process::exit(2);
@@ -107,6 +113,8 @@ fn replay_one(toks: &[&str]) -> String {
         "C07" => c07::replay(toks),
         "C15" => c15::observe(toks),
         "C10" => c10::observe(toks),
+        "C13" => c13::replay(&toks[1..]),
+        "C14" => c14::replay(&toks[1..]),
         other => format!("unknown-model {}", other),
     }
 }
